@@ -16,21 +16,43 @@ from harness.core import Result
 LEVEL = "exploration"
 RULES = {
     "mounts": "Hypothesis: mount tables of 1..5 entries over prefixes that are prefixes of each other ('', /a, /a/b, /ab, /api, /apix, "
-    "/é, /a.b), the default '' entry at any position, nesting depth <= 3, x paths ('', '/', prefix, prefix+'/', prefix+'x', "
-    "prefix+'/x/y', unrelated, Unicode) x initial root path; both interfaces; non-trivial = two entries whose prefixes are prefixes "
+    "/é, /a.b, /A, /日本), the default '' entry at any position, nesting depth <= 3, x paths ('', '/', prefix, prefix+'/', prefix+'x', "
+    "prefix+'/x/y', unrelated, Unicode; a matching path re-spelled: other letter case, doubled slash, dot segment, percent escape, "
+    "decomposed / fullwidth characters) x initial root path (also absent, equal to a prefix, ending in '/') x query string x method x "
+    "scope type (http, websocket); both interfaces; non-trivial = two entries whose prefixes are prefixes "
     "of each other are both candidates, or nesting >= 2",
-    "mount_grid": "exhaustive: all ordered tables of <= 3 entries over 5 prefixes x 14 paths x 2 root paths (depth 1), both interfaces",
-    "hosts_fixed": "enumerated: four small tables x Host absent / empty / foreign / member / upper-cased member x server address foreign / equal to a member / numeric",
+    "mount_grid": "exhaustive: all ordered tables of <= 3 entries over 5 prefixes x 20 paths x 2 root paths (depth 1), both interfaces",
+    "mount_special": "enumerated: 11 families of look-alike spellings (letter case, repeated slashes, dot segments, percent escapes, "
+    "delimiters ; # ? \\ and invisible characters after a prefix, Latin-1 misreadings of UTF-8 prefixes, CJK / astral prefixes, "
+    "compatibility-equivalent characters, regex and template metacharacters in prefixes, root path / path keys absent from the request, "
+    "root paths equal to a prefix or ending in '/'): all ordered tables of <= 2 entries over the family's prefixes and '' plus two-level "
+    "tables x the family's paths (also below the first prefix) x root paths; both interfaces; WSGI values compared in their "
+    "bytes-as-Latin-1 form",
+    "mount_bytes": "enumerated: ASCII-prefix tables (flat and nested) x request paths whose bytes are not UTF-8 (lone / truncated / "
+    "overlong / surrogate sequences before, directly after and below a prefix) x 2 root paths; both interfaces (ASGI sees the "
+    "server's U+FFFD decoding)",
+    "mount_seq": "enumerated: every ordered triple over 7 paths sent to ONE mount object (6 tables with shadowed / nested / default "
+    "entries); each answer judged like a single request; both interfaces",
+    "mount_ws": "enumerated: ASGI websocket scopes through flat and nested mounts (tables of <= 2 entries over 4 prefixes x 12 paths x 3 root paths)",
+    "hosts_fixed": "enumerated: small tables x Host absent / empty / foreign / member / upper-cased member x server address foreign / equal "
+    "to a member / numeric; alternations whose earlier alternative is a prefix of a later one; Host values with 8-bit bytes; "
+    "X-Forwarded-Host / Forwarded / X-Host style headers next to (before and after) or instead of Host; ASGI websocket scopes",
+    "hosts_seq": "enumerated: every ordered pair and triple over 6 Host values sent to ONE Hosts object (3 tables whose languages overlap); both interfaces",
     "hosts": "Hypothesis: host tables of 1..4 patterns from a constructive family (escaped literal, optional www., wildcard "
-    "subdomain, optional port, top-level alternation of literals) so that membership is decided by construction, x Host values (members, members with prefix/suffix "
-    "junk, ports, upper-case, empty, absent); non-trivial = a near-miss host (junk around a member)",
+    "subdomain (greedy and lazy), label class, optional port, top-level alternation of literals incl. literals that are prefixes of "
+    "one another) so that membership is decided by construction, x Host values (members, members with prefix/suffix "
+    "junk, 8-bit bytes, ports, upper-case, empty, absent) x other host-like headers x scope type; non-trivial = a near-miss host (junk around a member)",
 }
 ASSUMPTIONS = [
-    "the WSGI environ carries paths in the PEP 3333 bytes-as-Latin-1 form; they are compared after decoding as UTF-8",
+    "the WSGI environ carries paths in the PEP 3333 bytes-as-Latin-1 form; they are compared after decoding as UTF-8, and what a mount "
+    "hands down (SCRIPT_NAME, PATH_INFO) must again be in that form",
+    "SCRIPT_NAME / PATH_INFO (WSGI) and root_path (ASGI) may be absent from a request when empty (PEP 3333, ASGI HTTP scope)",
+    "a request path whose bytes are not UTF-8 is only sent to tables with ASCII prefixes (how such a path compares with a non-ASCII prefix is left open)",
     "host patterns come from a constructive family whose language is computed without the re module",
+    "dispatch is on the Host header only: no other header and not the server address takes part",
 ]
 
-PREFIXES = ["", "/a", "/a/b", "/ab", "/api", "/apix", "/é", "/a.b"]
+PREFIXES = ["", "/a", "/a/b", "/ab", "/api", "/apix", "/é", "/a.b", "/A", "/日本"]
 
 
 def ref_search(table, path):
@@ -40,16 +62,20 @@ def ref_search(table, path):
     return None
 
 
-def expected(table, root, path, trail=()):
-    """-> ('leaf', label, root_seen, path_seen) | ('404', level root/path)"""
+def expected(table, root, path, trail=(), visited=None):
+    """Reference walk over text.
+    -> ('leaf', label, root_seen, path_seen, trail, visited) | ('404', root, path, trail, visited)
+    visited = [(trail, root, path)] for every nested mount level entered (level 0 is the request itself)."""
+    visited = [] if visited is None else visited
     i = ref_search(table, path)
     if i is None:
-        return ("404", root, path, trail)
+        return ("404", root, path, trail, visited)
     prefix, sub = table[i]
     nroot, npath = root + prefix, path[len(prefix):]
     if isinstance(sub, list):
-        return expected(sub, nroot, npath, trail + (i,))
-    return ("leaf", sub, nroot, npath, trail + (i,))
+        visited.append((trail + (i,), nroot, npath))
+        return expected(sub, nroot, npath, trail + (i,), visited)
+    return ("leaf", sub, nroot, npath, trail + (i,), visited)
 
 
 def _dec(s):
@@ -59,28 +85,28 @@ def _dec(s):
         return s
 
 
-def build(table, side, seen):
-    M = W if side == "wsgi" else A
-    entries = []
-    for prefix, sub in table:
-        if isinstance(sub, list):
-            app = build(sub, side, seen)
-        elif side == "wsgi":
+def _native(s):
+    return s.encode("utf-8").decode("latin-1")
 
-            def app(environ, start_response, _label=sub):
-                seen.append((_label, _dec(environ.get("SCRIPT_NAME", "")), _dec(environ.get("PATH_INFO", ""))))
-                start_response("200 OK", [("content-type", "text/plain")])
-                return [str(_label).encode()]
 
-        else:
-
-            async def app(scope, receive, send, _label=sub):
-                seen.append((_label, scope.get("root_path", ""), scope["path"]))
-                await send({"type": "http.response.start", "status": 200, "headers": [(b"content-type", b"text/plain")]})
-                await send({"type": "http.response.body", "body": str(_label).encode()})
-
-        entries.append((prefix, app))
-    return M.Subpaths(*entries)
+def expected_wsgi(table, raw_root, raw_path, trail=(), visited=None):
+    """The same walk over the environ's native strings: the text compared is the UTF-8 reading of the bytes
+    (the Latin-1 view when they are not UTF-8), what is moved from the path to the root path is the
+    byte sequence of the prefix."""
+    visited = [] if visited is None else visited
+    text = _dec(raw_path)
+    i = ref_search(table, text)
+    if i is None:
+        return ("404", raw_root, raw_path, trail, visited)
+    prefix, sub = table[i]
+    nat = _native(prefix)
+    if not raw_path.startswith(nat):  # generator precondition (non-UTF-8 path x non-ASCII prefix is not generated)
+        raise core.HarnessError(f"reference: {raw_path!r} does not start with the bytes of {prefix!r}")
+    nroot, npath = raw_root + nat, raw_path[len(nat):]
+    if isinstance(sub, list):
+        visited.append((trail + (i,), nroot, npath))
+        return expected_wsgi(sub, nroot, npath, trail + (i,), visited)
+    return ("leaf", sub, nroot, npath, trail + (i,), visited)
 
 
 def snapshot(mapping):
@@ -95,54 +121,198 @@ def snapshot(mapping):
     return out
 
 
+def build(table, side, sink, trail=()):
+    """sink = {'leaf': [(label, root, path)], 'levels': [{'trail', 'root', 'path', 'before', 'after'}]}
+    Leaves record the raw values they are handed; every nested mount sits behind a pass-through application
+    that records what its level was handed and the request mapping before and after that level ran."""
+    M = W if side == "wsgi" else A
+    entries = []
+    for i, (prefix, sub) in enumerate(table):
+        if isinstance(sub, list):
+            inner = build(sub, side, sink, trail + (i,))
+            if side == "wsgi":
+
+                def app(environ, start_response, _inner=inner, _trail=trail + (i,)):
+                    lv = {"trail": _trail, "root": environ.get("SCRIPT_NAME"), "path": environ.get("PATH_INFO"), "before": snapshot(environ), "after": None}
+                    sink["levels"].append(lv)
+                    try:
+                        yield from _inner(environ, start_response)
+                    finally:
+                        lv["after"] = snapshot(environ)
+
+            else:
+
+                async def app(scope, receive, send, _inner=inner, _trail=trail + (i,)):
+                    lv = {"trail": _trail, "root": scope.get("root_path"), "path": scope.get("path"), "before": snapshot(scope), "after": None}
+                    sink["levels"].append(lv)
+                    try:
+                        await _inner(scope, receive, send)
+                    finally:
+                        lv["after"] = snapshot(scope)
+
+        elif side == "wsgi":
+
+            def app(environ, start_response, _label=sub):
+                sink["leaf"].append((_label, environ.get("SCRIPT_NAME"), environ.get("PATH_INFO")))
+                start_response("200 OK", [("content-type", "text/plain"), ("x-leaf", str(_label))])
+                return [str(_label).encode()]
+
+        else:
+
+            async def app(scope, receive, send, _label=sub):
+                sink["leaf"].append((_label, scope.get("root_path"), scope.get("path")))
+                if scope["type"] != "http":
+                    return
+                await send({"type": "http.response.start", "status": 200, "headers": [(b"content-type", b"text/plain"), (b"x-leaf", str(_label).encode())]})
+                await send({"type": "http.response.body", "body": str(_label).encode()})
+
+        entries.append((prefix, app))
+    return M.Subpaths(*entries)
+
+
+def _diff(before, after):
+    return {k: (before.get(k), after.get(k)) for k in set(before) | set(after) if before.get(k) != after.get(k)}
+
+
+def _show(side, s):
+    return repr(s) if side == "asgi" or s is None or _dec(s) == s else f"{s!r} (= {_dec(s)!r})"
+
+
+def judge_mount(r, side, app, sink, table, rq, ctx):
+    """One request (rq = {'root', 'path' | 'path_bytes', 'scope_type', 'query', 'method'}) through a built mount."""
+    root, path, pbytes = rq.get("root"), rq.get("path"), rq.get("path_bytes")
+    ws = rq.get("scope_type") == "websocket"
+    del sink["leaf"][:], sink["levels"][:]
+    if pbytes is not None:
+        path = pbytes.decode("utf-8", "replace")  # what an ASGI server hands over
+    areq = gw.areq(method=rq.get("method") or "GET", path=path or "", root_path=root or "", query=rq.get("query") or b"", path_bytes=pbytes)
+    if side == "wsgi":
+        env = gw.make_environ(areq)
+        if root is None:
+            del env["SCRIPT_NAME"]
+        if path is None:
+            del env["PATH_INFO"]
+        raw_root, raw_path = env.get("SCRIPT_NAME", ""), env.get("PATH_INFO", "")
+        exp = expected_wsgi(table, raw_root, raw_path)
+        if pbytes is None:
+            # self-check of the harness: on text paths the byte-level walk is the text-level walk
+            t = expected(table, root or "", path or "")
+            tn = tuple(_native(x) if isinstance(x, str) and i in ((1, 2) if t[0] == "404" else (2, 3)) else x for i, x in enumerate(t[:-1]))
+            if tn != exp[:-1] or [(tr, _native(a), _native(b)) for tr, a, b in t[-1]] != exp[-1]:
+                raise core.HarnessError(f"references disagree: {t!r} / {exp!r}")
+        before = snapshot(env)
+        run = gw.run_wsgi(app, env)
+        after = snapshot(env)
+    else:
+        scope = gw.make_scope(areq)
+        if root is None:
+            del scope["root_path"]
+        if ws:
+            scope["type"], scope["scheme"], scope["subprotocols"] = "websocket", "ws", []
+            del scope["method"]
+        exp = expected(table, root or "", path or "")
+        before = snapshot(scope)
+        run = gw.run_sync(gw.run_asgi(app, scope))
+        after = snapshot(scope)
+    leaf, levels = list(sink["leaf"]), list(sink["levels"])
+    if run.exc is not None:
+        r.fail(f"C09:{side}:raised:{type(run.exc).__name__}", f"{ctx}: {run.exc!r}")
+        return exp
+    visited = exp[-1]
+    # every nested level entered: the expected mounts, each handed the expected root path and path
+    got_trails, exp_trails = [lv["trail"] for lv in levels], [v[0] for v in visited]
+    if got_trails != exp_trails:
+        r.fail(f"C09:{side}:wrong-entry", f"{ctx}: nested mounts entered {got_trails!r}, the first matching entries lead through {exp_trails!r}; leaves ran {leaf!r}")
+        return exp
+    for lv, (tr, eroot, epath) in zip(levels, visited):
+        if (lv["path"] or "") != epath:
+            r.fail(f"C09:{side}:path-seen", f"{ctx}: nested mount {tr!r} saw path {_show(side, lv['path'])}, expected {_show(side, epath)}")
+        if (lv["root"] or "") != eroot:
+            r.fail(f"C09:{side}:root-seen", f"{ctx}: nested mount {tr!r} saw root path {_show(side, lv['root'])}, expected {_show(side, eroot)}")
+    if exp[0] == "404":
+        if leaf or (not ws and run.status_code != 404):
+            r.fail(f"C09:{side}:no-entry-but-dispatched", f"{ctx}: expected 404 at level {exp[3]!r}, got status {run.status_code}, sub-apps ran {leaf!r}")
+        else:
+            # the level at which nothing matched leaves the request as it got it
+            b, a = (before, after) if not levels else (levels[-1]["before"], levels[-1]["after"])
+            if a is None or b != a:
+                r.fail(f"C09:{side}:request-touched-on-404", f"{ctx}: request mapping changed at level {exp[3]!r} although no entry matched: {_diff(b, a or {})!r}")
+        return exp
+    _, label, eroot, epath, trail, _ = exp
+    if len(leaf) != 1:
+        r.fail(f"C09:{side}:dispatch-count", f"{ctx}: expected leaf {label!r} via {trail!r}, sub-apps ran {leaf!r}, status {run.status_code}")
+        return exp
+    glabel, groot, gpath = leaf[0]
+    if glabel != label:
+        r.fail(f"C09:{side}:wrong-entry", f"{ctx}: entry {glabel!r} ran, the first matching entry is {label!r} (via {trail!r})")
+        return exp
+    groot, gpath = groot or "", gpath or ""
+    if type(groot) is not str or type(gpath) is not str:
+        r.fail(f"C09:{side}:value-type", f"{ctx}: sub-application saw root path {groot!r}, path {gpath!r}")
+        return exp
+    if gpath != epath:
+        native = side == "wsgi" and _dec(gpath) == _dec(epath)
+        r.fail(f"C09:{side}:path-" + ("not-native" if native else "seen"), f"{ctx}: sub-application saw path {_show(side, gpath)}, expected {_show(side, epath)}"
+               + (" - the same text, but not in the environ's bytes-as-Latin-1 form" if native else ""))
+    if groot != eroot:
+        native = side == "wsgi" and _dec(groot) == _dec(eroot)
+        r.fail(f"C09:{side}:root-" + ("not-native" if native else "seen"), f"{ctx}: sub-application saw root path {_show(side, groot)}, expected {_show(side, eroot)}"
+               + (" - the same text, but not in the environ's bytes-as-Latin-1 form" if native else ""))
+    whole = (raw_root + raw_path) if side == "wsgi" else ((root or "") + (path or ""))
+    if groot + gpath != whole:
+        r.fail(f"C09:{side}:full-path-changed", f"{ctx}: root+path seen {_show(side, groot + gpath)}, request had {_show(side, whole)}")
+    if not ws:
+        # dispatching means the selected sub-application answers
+        body = run.body
+        if run.status_code != 200 or body != str(label).encode() or run.get("x-leaf") != str(label):
+            r.fail(f"C09:{side}:answer-not-passed-on", f"{ctx}: entry {label!r} answered 200 / {str(label)!r}, the client got {run.status_code} / {body[:60]!r} / x-leaf {run.get('x-leaf')!r}")
+    return exp
+
+
+def _sides(rq):
+    return ("asgi",) if rq.get("scope_type") == "websocket" else ("wsgi", "asgi")
+
+
 def oracle_mounts(case) -> Result:
     r = Result()
-    table, root, path = case["table"], case["root"], case["path"]
-    exp = expected(table, root, path)
-    ctx = f"table {table!r} root {root!r} path {path!r}"
-    for side in ("wsgi", "asgi"):
-        seen = []
-        app = build(table, side, seen)
-        rq = gw.areq(path=path, root_path=root)
-        if side == "wsgi":
-            env = gw.make_environ(rq)
-            before = snapshot(env)
-            run = gw.run_wsgi(app, env)
-            after = snapshot(env)
-        else:
-            scope = gw.make_scope(rq)
-            before = snapshot(scope)
-            run = gw.run_sync(gw.run_asgi(app, scope))
-            after = snapshot(scope)
-        if run.exc is not None:
-            r.fail(f"C09:{side}:raised:{type(run.exc).__name__}", f"{ctx}: {run.exc!r}")
-            continue
-        if exp[0] == "404":
-            if run.status_code != 404 or seen:
-                r.fail(f"C09:{side}:no-entry-but-dispatched", f"{ctx}: expected 404 at level {exp[3]!r}, got status {run.status_code}, sub-apps ran {seen!r}")
-            elif not exp[3] and before != after:
-                changed = {k: (before.get(k), after.get(k)) for k in set(before) | set(after) if before.get(k) != after.get(k)}
-                r.fail(f"C09:{side}:request-touched-on-404", f"{ctx}: request mapping changed although no entry matched: {changed!r}")
-            continue
-        _, label, eroot, epath, trail = exp
-        if len(seen) != 1:
-            r.fail(f"C09:{side}:dispatch-count", f"{ctx}: expected leaf {label!r} via {trail!r}, sub-apps ran {seen!r}, status {run.status_code}")
-            continue
-        glabel, groot, gpath = seen[0]
-        if glabel != label:
-            r.fail(f"C09:{side}:wrong-entry", f"{ctx}: entry {glabel!r} ran, the first matching entry is {label!r} (via {trail!r})")
-            continue
-        if gpath != epath:
-            r.fail(f"C09:{side}:path-seen", f"{ctx}: sub-application saw path {gpath!r}, expected {epath!r}")
-        if groot != eroot:
-            r.fail(f"C09:{side}:root-seen", f"{ctx}: sub-application saw root path {groot!r}, expected {eroot!r}")
-        if groot + gpath != root + path:
-            r.fail(f"C09:{side}:full-path-changed", f"{ctx}: root+path seen {groot + gpath!r}, request had {root + path!r}")
-    cands = [p for p, _ in table if path == p or path.startswith(p + "/")]
-    depth = len(exp[-1]) if exp[0] == "leaf" else len(exp[3]) + 1
-    r.nontrivial = len(cands) >= 2 or depth >= 2
+    table = case["table"]
+    rq = {k: case.get(k) for k in ("root", "path", "path_bytes", "scope_type", "query", "method")}
+    shown = case.get("path_bytes") if case.get("path_bytes") is not None else case.get("path")
+    ctx = f"table {table!r} root {case.get('root')!r} path {shown!r}" + (" websocket" if rq["scope_type"] == "websocket" else "") + (
+        f" query {rq['query']!r}" if rq.get("query") else "")
+    exp = None
+    for side in _sides(rq):
+        sink = {"leaf": [], "levels": []}
+        app = build(table, side, sink)
+        exp = judge_mount(r, side, app, sink, table, rq, ctx)
+    # labels from the (text-level) ASGI expectation
+    tpath = case["path_bytes"].decode("utf-8", "replace") if case.get("path_bytes") is not None else (case.get("path") or "")
+    cands = [p for p, _ in table if tpath == p or tpath.startswith(p + "/")]
+    depth = len(exp[4]) if exp[0] == "leaf" else len(exp[3]) + 1
+    r.nontrivial = len(cands) >= 2 or depth >= 2 or bool(case.get("near"))
     r.label(f"outcome={exp[0]}", f"depth={depth}", f"candidates={min(len(cands), 3)}")
-    r.key = (repr(table), root, path)
+    if case.get("family"):
+        r.label(f"family={case['family']}")
+    r.key = (repr(table), case.get("root"), shown, rq["scope_type"], rq.get("query"), rq.get("method"))
+    return r
+
+
+def oracle_mount_seq(case) -> Result:
+    """Several requests to ONE mount object: each is judged like a single request."""
+    r = Result()
+    table = case["table"]
+    for side in ("wsgi", "asgi"):
+        sink = {"leaf": [], "levels": []}
+        app = build(table, side, sink)
+        for n, rq in enumerate(case["requests"]):
+            ctx = f"table {table!r}, one mount object, requests {[q.get('path') for q in case['requests']]!r}: request #{n} root {rq.get('root')!r} path {rq.get('path')!r}"
+            before = len(r.failures)
+            judge_mount(r, side, app, sink, table, rq, ctx)
+            if len(r.failures) > before:
+                break
+    r.nontrivial = len({q.get("path") for q in case["requests"]}) >= 2
+    r.weight = len(case["requests"])
+    r.label(f"requests={len(case['requests'])}")
     return r
 
 
@@ -156,8 +326,11 @@ def host_language(pat, host):
         return host == lit
     if kind == "www":
         return host in (lit, "www." + lit)
-    if kind == "sub":
+    if kind in ("sub", "lazy"):
         return host.endswith("." + lit) and "\n" not in host
+    if kind == "cls":
+        label = host[: -len(lit) - 1]
+        return host.endswith("." + lit) and label != "" and all(c in "abcdefghijklmnopqrstuvwxyz0123456789-" for c in label)
     if kind == "alt":
         return host in lit.split("|")
     if kind == "port":
@@ -175,55 +348,94 @@ def host_regex(pat):
     if kind == "alt":  # top-level alternation of escaped literals
         return "|".join(re.escape(x) for x in lit.split("|"))
     e = re.escape(lit)
-    return {"lit": e, "www": r"(www\.)?" + e, "sub": r".*\." + e, "port": e + r"(:\d+)?"}[kind]
+    return {"lit": e, "www": r"(www\.)?" + e, "sub": r".*\." + e, "lazy": r".*?\." + e, "cls": r"[a-z0-9-]+\." + e, "port": e + r"(:\d+)?"}[kind]
+
+
+def _hosts_app(table, side, seen):
+    M = W if side == "wsgi" else A
+    entries = []
+    for i, pat in enumerate(table):
+        if side == "wsgi":
+
+            def app(environ, start_response, _i=i):
+                seen.append(_i)
+                start_response("200 OK", [])
+                return [b"ok"]
+
+        else:
+
+            async def app(scope, receive, send, _i=i):
+                seen.append(_i)
+                if scope["type"] != "http":
+                    return
+                await send({"type": "http.response.start", "status": 200, "headers": []})
+                await send({"type": "http.response.body", "body": b"ok"})
+
+        entries.append((host_regex(pat), app))
+    return M.Hosts(*entries)
 
 
 def oracle_hosts(case) -> Result:
+    """case: table, host (or 'seq': several Host values sent to one Hosts object), server, near_miss,
+    extra = [[name, value], ...] other headers, host_pos = index of the Host header among them, scope_type"""
     r = Result()
-    table, host = case["table"], case["host"]
-    exp = None
-    for i, pat in enumerate(table):
-        if host_language(pat, host if host is not None else ""):
-            exp = i
-            break
-    ctx = f"patterns {[host_regex(p) for p in table]!r} Host {host!r} server {case.get('server', 'testserver')!r}"
-    for side in ("wsgi", "asgi"):
+    table = case["table"]
+    seq = case["seq"] if "seq" in case else [case["host"]]
+    extra = [list(h) for h in case.get("extra") or []]
+    ws = case.get("scope_type") == "websocket"
+    for side in (("asgi",) if ws else ("wsgi", "asgi")):
         seen = []
-        M = W if side == "wsgi" else A
-        entries = []
-        for i, pat in enumerate(table):
+        hosts = _hosts_app(table, side, seen)
+        for n, host in enumerate(seq):
+            del seen[:]
+            exp = None
+            for i, pat in enumerate(table):
+                if host_language(pat, host if host is not None else ""):
+                    exp = i
+                    break
+            ctx = f"patterns {[host_regex(p) for p in table]!r} Host {host!r} server {case.get('server', 'testserver')!r}"
+            if extra:
+                ctx += f" other headers {extra!r} (Host at position {case.get('host_pos', 0)})"
+            if len(seq) > 1:
+                ctx += f" as request #{n} of {seq!r} to one Hosts object"
+            if ws:
+                ctx += " websocket"
+            headers = list(extra)
+            if host is not None:
+                headers.insert(min(case.get("host_pos", 0), len(headers)), ["Host", host])
+            rq = gw.areq(headers=headers, server=[case.get("server", "testserver"), 80])
             if side == "wsgi":
-
-                def app(environ, start_response, _i=i):
-                    seen.append(_i)
-                    start_response("200 OK", [])
-                    return [b"ok"]
-
+                run = gw.call_wsgi(hosts, rq)
             else:
-
-                async def app(scope, receive, send, _i=i):
-                    seen.append(_i)
-                    await send({"type": "http.response.start", "status": 200, "headers": []})
-                    await send({"type": "http.response.body", "body": b"ok"})
-
-            entries.append((host_regex(pat), app))
-        hosts = M.Hosts(*entries)
-        rq = gw.areq(headers=[["Host", host]] if host is not None else [], server=[case.get("server", "testserver"), 80])
-        run = gw.call_wsgi(hosts, rq) if side == "wsgi" else gw.call_asgi(hosts, rq)
-        if run.exc is not None:
-            r.fail(f"C09:{side}:hosts-raised:{type(run.exc).__name__}", f"{ctx}: {run.exc!r}")
-            continue
-        if exp is None:
-            if run.status_code != 404 or seen:
-                r.fail(f"C09:{side}:host-not-in-any-language-but-dispatched", f"{ctx}: status {run.status_code}, entries ran {seen!r}")
-        elif seen != [exp]:
-            r.fail(f"C09:{side}:host-wrong-entry", f"{ctx}: entries ran {seen!r} (status {run.status_code}), expected entry #{exp}")
-    r.nontrivial = bool(case.get("near_miss"))
-    r.label("match" if exp is not None else "no-match", "near-miss" if case.get("near_miss") else "plain", "host-absent" if host is None else "host-present")
+                scope = gw.make_scope(rq)
+                if ws:
+                    scope["type"], scope["scheme"], scope["subprotocols"] = "websocket", "ws", []
+                    del scope["method"]
+                run = gw.run_sync(gw.run_asgi(hosts, scope))
+            if run.exc is not None:
+                r.fail(f"C09:{side}:hosts-raised:{type(run.exc).__name__}", f"{ctx}: {run.exc!r}")
+                break
+            if exp is None:
+                if (not ws and run.status_code != 404) or seen:
+                    r.fail(f"C09:{side}:host-not-in-any-language-but-dispatched", f"{ctx}: status {run.status_code}, entries ran {seen!r}")
+                    break
+            elif seen != [exp]:
+                r.fail(f"C09:{side}:host-wrong-entry", f"{ctx}: entries ran {seen!r} (status {run.status_code}), expected entry #{exp}")
+                break
+    r.nontrivial = bool(case.get("near_miss")) or len(set(seq)) >= 2
+    r.weight = len(seq)
+    if "seq" in case:
+        r.label(f"requests={len(seq)}")
+    else:
+        host = case["host"]
+        hit = any(host_language(p, host if host is not None else "") for p in table)
+        r.label("match" if hit else "no-match", "near-miss" if case.get("near_miss") else "plain", "host-absent" if host is None else "host-present",
+                "other-host-headers" if extra else "host-only")
     return r
 
 
-SUBS = {"mounts": oracle_mounts, "mount_grid": oracle_mounts, "hosts": oracle_hosts, "hosts_fixed": oracle_hosts}
+SUBS = {"mounts": oracle_mounts, "mount_grid": oracle_mounts, "mount_special": oracle_mounts, "mount_bytes": oracle_mounts, "mount_ws": oracle_mounts,
+        "mount_seq": oracle_mount_seq, "hosts": oracle_hosts, "hosts_fixed": oracle_hosts, "hosts_seq": oracle_hosts}
 
 # ------------------------------------------------------------------------------------------
 
@@ -250,51 +462,206 @@ def _all_prefixes(table, acc=""):
     return out
 
 
+_FULLWIDTH = {c: chr(ord(c) + 0xFEE0) for c in "abipxAB"}
+
+
+def respell(base, how):
+    """Another spelling of a path that a lenient comparison might take for the same: none of them IS the same path."""
+    if how == "upper":
+        return base.upper()
+    if how == "swap-last":
+        return base[:-1] + base[-1:].swapcase()
+    if how == "lead-slash":
+        return "/" + base
+    if how == "inner-slash":
+        i = base.rfind("/")
+        return base[:i] + "/" + base[i:] if i >= 0 else base
+    if how == "dot":
+        i = base.rfind("/")
+        return base[:i] + "/." + base[i:] if i >= 0 else base
+    if how == "dotdot":
+        return "/x/.." + base
+    if how == "percent":
+        return base[:-1] + "".join("%%%02X" % b for b in base[-1:].encode("utf-8"))
+    if how == "percent-slash":
+        i = base.rfind("/")
+        return base[:i] + "%2F" + base[i + 1:] if i > 0 else base
+    if how == "nfd":
+        return base.replace("é", "e\u0301")
+    if how == "fullwidth":
+        return base[:-1] + _FULLWIDTH.get(base[-1:], base[-1:])
+    return base
+
+
+RESPELL = ["upper", "swap-last", "lead-slash", "inner-slash", "dot", "dotdot", "percent", "percent-slash", "nfd", "fullwidth"]
+TAILS = ["", "/", "x", "/x/y", "/x", "//", "/a", "/a/b", "/é", ".b", "/b", "b", "\n", "\r", "\n/x", "/\n", " ", "%", "?", "\x00", "\u2028", "\x0b",
+         "/X", "/A", ";", ";x=1", "#", "#f", "%2F", "%2Fx", "//x", "/./x", "/../x", "/.", "/..", "\\", "\\x", ":", "\ufffd", "/\ufffd", "é", "/日本", "\u200b", "\xa0"]
+ROOTS = ["", "", "", "/root", "/é", "/a", "/a/b", "/r/", None]
+
+
 @st.composite
 def mount_case(draw):
     table = draw(tables())
     base = draw(st.sampled_from(_all_prefixes(table) + PREFIXES))
-    tail = draw(st.sampled_from(["", "/", "x", "/x/y", "/x", "//", "/a", "/a/b", "/é", ".b", "/b", "b", "\n", "\r", "\n/x", "/\n", " ", "%", "?", "\x00", "\u2028", "\x0b"]))
-    path = draw(st.one_of(st.just(base + tail), st.sampled_from(["", "/", "/zzz", "/abc", "/apixy", "/a.bc", "/ax/b", "nothing", "/éa"])))
-    return {"table": table, "root": draw(st.sampled_from(["", "", "/root", "/é"])), "path": path}
+    near = False
+    if draw(st.integers(0, 4)) == 0:
+        spelled = respell(base, draw(st.sampled_from(RESPELL)))
+        near, base = spelled != base, spelled
+    tail = draw(st.sampled_from(TAILS))
+    path = draw(st.one_of(st.just(base + tail), st.sampled_from(["", "/", "/zzz", "/abc", "/apixy", "/a.bc", "/ax/b", "nothing", "/éa", "//a", "/API", "/%61"])))
+    case = {"table": table, "root": draw(st.sampled_from(ROOTS)), "path": path}
+    if near:
+        case["near"] = True
+    q = draw(st.sampled_from([None, None, None, b"x=1", b"/a/b", b"a=%2F&b=/a"]))
+    if q is not None:
+        case["query"] = q
+    m = draw(st.sampled_from([None, None, None, "POST", "DELETE"]))
+    if m is not None:
+        case["method"] = m
+    if draw(st.integers(0, 7)) == 0:
+        case["scope_type"] = "websocket"
+    return case
 
 
-def grid_shard(rec, k, nshards):
-    g = core.guarded(oracle_mounts)
-    prefixes = ["", "/a", "/a/b", "/ab", "/é"]
-    paths = ["", "/", "/a", "/a/", "/ab", "/a/b", "/a/b/", "/a/bc", "/abc", "/ab/c", "/a/b/c/d", "/é", "/é/x", "/zzz", "/a\n", "\n", "/a/b\n", "/a\n/b", "/a\r", "/ab\n"]
-    i = 0
+GRID_PREFIXES = ["", "/a", "/a/b", "/ab", "/é"]
+GRID_PATHS = ["", "/", "/a", "/a/", "/ab", "/a/b", "/a/b/", "/a/bc", "/abc", "/ab/c", "/a/b/c/d", "/é", "/é/x", "/zzz", "/a\n", "\n", "/a/b\n", "/a\n/b", "/a\r", "/ab\n"]
+
+
+def grid_cases():
     for n in (1, 2, 3):
-        for combo in itertools.product(prefixes, repeat=n):
+        for combo in itertools.product(GRID_PREFIXES, repeat=n):
             table = [[p, f"e{j}"] for j, p in enumerate(combo)]
-            for path in paths:
+            for path in GRID_PATHS:
                 for root in ("", "/root"):
-                    i += 1
-                    if i % nshards != k:
-                        continue
-                    case = {"table": table, "root": root, "path": path}
-                    res = g(case)
-                    rec.count("mount_grid", case, res)
-                    new, old = rec.split(res)
-                    rec.note_known(old)
-                    for f in new:
-                        rec.add_violation("mount_grid", f, case)
-                        rec.skip.add(f.bucket)
+                    yield {"table": table, "root": root, "path": path}
 
 
-LITS = ["example.com", "api.example.com", "localhost", "a-b.org", "x.y"]
+# name, prefixes, paths, root paths
+FAMILIES = [
+    ("case", ["/a", "/A", "/a/b"], ["/a", "/A", "/a/B", "/A/b", "/A/B", "/a/b", "/A/", "/a/", "/A/x", "/aB", "/Ab", "/a/b/C"], ("", "/root")),
+    ("case-unicode", ["/é", "/É", "/ß"], ["/é", "/É", "/é/x", "/É/x", "/ß", "/SS", "/ss", "/ẞ", "/ß/x", "/SS/x", "/ǆ", "/Ǆ"], ("", "/É")),
+    ("slashes", ["/a", "/a/b", "/b"], ["//a", "//a/b", "/a//b", "/a//", "//", "///a", "/a/b//", "/a///b", "//a//b", "/a//b/c", "//b", "/a/b", "/a", "//a/"], ("", "/root")),
+    ("dots", ["/a", "/a/b", "/b"], ["/./a", "/a/./b", "/a/../b", "/a/b/..", "/a/b/../", "/x/../a", "/a/.", "/a/..", "/a/../a", "/..", "/../a", "/.", "/a/b/.",
+                                      "/a/b/./c", "/./a/b", "/a/.b", "/a/..b", "/.a", "/a/b/../b"], ("", "/root")),
+    ("percent", ["/a", "/a/b", "/é"], ["/%61", "/%61/b", "/a%2Fb", "/a%2fb", "/a%2F", "/a/%62", "/%2Fa", "/a%0A", "/a%00", "/a%20", "/%C3%A9", "/%c3%a9/x", "/a%",
+                                         "/a%2", "/%2561", "/a+", "/a%3B", "/a%3F", "/%E9"], ("", "/root")),
+    ("delimiters", ["/a", "/a/b", "/a;b"], ["/a;x=1", "/a;", "/a;b", "/a;b/c", "/a;b;c", "/a/b;v=1", "/a/b;v=1/c", "/a#f", "/a#", "/a?x", "/a?", "/a&", "/a\\", "/a\\b",
+                                              "\\a", "/a:", "/a:80", "/a,", "/a*", "/a.", "/a..", "/a~", "/a@", "/a=", "/a|b", "/a\t", "/a\x7f", "/a\xa0", "/a\u200b",
+                                              "/a\ufeff", "/a\x85", "/a\x1f", "/a\x0c"], ("", "/root")),
+    ("latin1-misreading", ["/é", "/Ã©", "/Ã"], ["/é", "/Ã©", "/é/x", "/Ã©/x", "/Ã", "/Ã/©", "/Ã\x83Â©", "/é/é", "/Ã©/é", "/é/Ã©", "/\xa9"], ("", "/é")),
+    ("wide", ["/日本", "/😀", "/日本/語"], ["/日本", "/日本/x", "/日本語", "/日", "/日本/語", "/日本/語/é", "/😀", "/😀/é", "/😀x", "/😀/😀", "/日本/"], ("", "/日本")),
+    ("compat", ["/a", "/é", "/\ufb01"], ["/\uff41", "/\uff41/x", "/\xaa", "/e\u0301", "/e\u0301/x", "/é", "/fi", "/\ufb01", "/\ufb01/x", "/fi/x", "/a\u0301", "/\u212b", "/é\u0301"], ("", "/root")),
+    ("metachars", ["/a.b", "/a+", "/(a)", "/{x}"], ["/a.b", "/axb", "/a.b/c", "/axb/c", "/a+", "/aa", "/a", "/(a)", "/(a)/x", "/a+/x", "/aa/x", "/{x}", "/{x}/y", "/v", "/v/y",
+                                                    "/%7Bx%7D", "/a", "/{x"], ("", "/root")),
+    ("absent-keys", ["/a", "/a/b"], [None, "", "/", "/a", "/a/", "/a/b", "/a/b/c", "/x"], (None, "", "/root")),
+    ("roots", ["/a", "/a/b", "/b"], ["", "/", "/a", "/a/b", "/a/a", "/a/a/b", "/b/a", "/a/b/a/b", "/r", "/r/a", "/x"], ("/a", "/a/b", "/r/", "/a/")),
+]
+
+
+def special_cases(full=False):
+    for name, prefixes, fpaths, roots in FAMILIES:
+        pool = prefixes + [""]
+        tabs = [[[p, "e0"]] for p in pool]
+        tabs += [[[p, "e0"], [q, "e1"]] for p in pool for q in pool]
+        outers = prefixes if full else prefixes[:1]
+        for o in outers:
+            tabs += [[[o, [[q, "n0"], ["", "n1"]]]] for q in prefixes]
+            tabs += [[[o, [[q, "n0"]]], ["", "e1"]] for q in prefixes]
+        if full:
+            tabs += [[[p, "e0"], [q, "e1"], [s, "e2"]] for p in pool for q in pool for s in pool]
+        paths = list(fpaths)
+        for o in outers:
+            paths += [o + p for p in fpaths if p is not None and p.startswith("/")]
+        paths = list(dict.fromkeys(paths))
+        for table in tabs:
+            for path in paths:
+                for root in roots:
+                    yield {"table": table, "root": root, "path": path, "family": name, "near": True}
+
+
+BYTE_PATHS = [b"/a/\xff", b"/a\xff", b"/a\xff/b", b"\xff", b"/\xff", b"/\xff/a", b"/a/b/\xe9", b"/a/b\xe9", b"/a/\xc3", b"/a\xc3", b"/a/\xc3\xa9\xff", b"/a/b\x80", b"/a/b/\x80/c",
+              b"/a\xc3\xa9", b"/a/\xc3\xa9", b"/a/\xed\xa0\x80", b"/a\xed\xa0\x80", b"/a/\xc0\xaf", b"/a\xc0\xafb", b"/a\xc0\xaf", b"/a/b\xc0\xaf", b"/a/b/\xf8\x88\x80\x80\x80",
+              b"/\xe9/a", b"/a/\xa0", b"/a\xa0", b"/a\xad", b"/a\x85", b"/a/b\xe2\x80", b"/a\xe2\x80\xa8"]
+
+
+def bytes_cases():
+    flat = ["", "/a", "/a/b", "/b"]
+    tabs = [[[p, "e0"]] for p in flat] + [[[p, "e0"], [q, "e1"]] for p in flat for q in flat]
+    tabs += [[["/a", [[q, "n0"], ["", "n1"]]]] for q in ("/b", "/a")] + [[["/a", [["/b", "n0"]]], ["", "e1"]], [["", [["/a", [["/b", "d3"]]]]]]]
+    # PENDING-DEFECT: (left open rather than a certain defect) a non-UTF-8 path is compared in its Latin-1 view, so on WSGI it never
+    # matches a non-ASCII prefix although its bytes start with the bytes of that prefix (b"/\xc3\xa9/\xff" under "/é" is 404 on
+    # WSGI and dispatched on ASGI, where the server decodes with U+FFFD); only ASCII prefixes are used with these paths.
+    for table in tabs:
+        for pb in BYTE_PATHS:
+            for root in ("", "/root"):
+                yield {"table": table, "root": root, "path_bytes": pb, "near": True}
+
+
+SEQ_TABLES = [
+    [["/a", "e0"], ["", "e1"]],
+    [["", "e0"], ["/a", "e1"]],
+    [["/a/b", "e0"], ["/a", "e1"]],
+    [["/a", "e0"], ["/a/b", "e1"]],
+    [["/a", "e0"], ["/ab", "e1"], ["/a/b", "e2"], ["", "e3"]],
+    [["/a", [["/b", "n0"], ["", "n1"]]], ["/a/b", "e1"], ["", "e2"]],
+]
+SEQ_PATHS = ["/a", "/a/b", "/a/b/c", "/ab", "/x", "", "/a/c"]
+
+
+def seq_cases(full=False):
+    for table in SEQ_TABLES:
+        for n in ((2, 3, 4) if full else (3,)):
+            for combo in itertools.product(SEQ_PATHS, repeat=n):
+                if len(set(combo)) < 2:
+                    continue
+                yield {"table": table, "requests": [{"root": "", "path": p} for p in combo]}
+
+
+def ws_cases():
+    flat = ["", "/a", "/a/b", "/ab"]
+    tabs = [[[p, "e0"]] for p in flat] + [[[p, "e0"], [q, "e1"]] for p in flat for q in flat]
+    tabs += [[["/a", [["/b", "n0"], ["", "n1"]]]], [["/a", [["/b", "n0"]]], ["", "e1"]]]
+    for table in tabs:
+        for path in ["", "/", "/a", "/a/", "/ab", "/a/b", "/a/b/", "/a/bc", "/abc", "/a/b/c/d", "/zzz", "/a\n"]:
+            for root in ("", "/root", None):
+                yield {"table": table, "root": root, "path": path, "scope_type": "websocket"}
+
+
+def enum_shard(rec, k, nshards, sub, full):
+    gen = {"mount_grid": grid_cases, "mount_special": lambda: special_cases(full), "mount_bytes": bytes_cases, "mount_seq": lambda: seq_cases(full),
+           "mount_ws": ws_cases, "hosts_seq": hosts_seq_cases}[sub]
+    g = core.guarded(SUBS[sub])
+    for i, case in enumerate(gen()):
+        if i % nshards != k:
+            continue
+        res = g(case)
+        rec.count(sub, case, res)
+        new, old = rec.split(res)
+        rec.note_known(old)
+        for f in new:
+            rec.add_violation(sub, f, case)
+            rec.skip.add(f.bucket)
+
+
+LITS = ["example.com", "api.example.com", "localhost", "a-b.org", "x.y", "example.com.au", "example.co"]
+OTHER_HOST_HEADERS = ["X-Forwarded-Host", "X-Host", "X-Original-Host", "X-Forwarded-Server", "X-HTTP-Host-Override", "Forwarded"]
+
+
+def _other(name, value):
+    return [name, ("host=" + value) if name == "Forwarded" else value]
 
 
 @st.composite
 def host_case(draw):
     entry = st.one_of(
-        st.tuples(st.sampled_from(["lit", "www", "sub", "port"]), st.sampled_from(LITS)),
+        st.tuples(st.sampled_from(["lit", "www", "sub", "port", "lazy", "cls"]), st.sampled_from(LITS)),
         st.tuples(st.just("alt"), st.lists(st.sampled_from(LITS), min_size=2, max_size=3, unique=True).map("|".join)),
     ).map(list)
     table = draw(st.lists(entry, min_size=1, max_size=4))
     kind, lit = draw(st.sampled_from(table))
     first = lit.split("|")[0]
-    member = {"lit": lit, "www": draw(st.sampled_from([lit, "www." + lit])), "sub": draw(st.sampled_from(["a." + lit, "a.b." + lit, "." + lit])),
+    member = {"lit": lit, "www": draw(st.sampled_from([lit, "www." + lit])), "sub": draw(st.sampled_from(["a." + lit, "a.b." + lit, "." + lit, "\xe9." + lit, "A." + lit])),
+              "lazy": draw(st.sampled_from(["a." + lit, lit + "." + lit, "." + lit])), "cls": draw(st.sampled_from(["a." + lit, "a-1." + lit, "0." + lit])),
               "port": draw(st.sampled_from([lit, lit + ":80", lit + ":8080"])), "alt": draw(st.sampled_from(lit.split("|")))}[kind]
     lit = first
     mode = draw(st.sampled_from(["member", "member", "near", "near", "other", "absent"]))
@@ -306,11 +673,14 @@ def host_case(draw):
         host = draw(
             st.sampled_from(
                 [member + ".evil.com", "x" + member, member + "x", member.upper(), member + ":", member + ":80x", "evil.com/" + member, member + " ", " " + member,
-                 member.replace(".", "x", 1), "www." + member, member + ":80:90", "wwwx" + lit, lit + ".", member + "\t"]
+                 member.replace(".", "x", 1), "www." + member, member + ":80:90", "wwwx" + lit, lit + ".", member + "\t",
+                 "evil@" + member, member + "/", member + "/x", member + "?", member + "#", member + "\\", "http://" + member, "." + member, member + ":80",
+                 member[:1] + "\xe9" + member[1:], member + "\xe9", "\xe9" + member, member.replace(".", "\xad.", 1), member + "\xa0", "a_b." + member, "A." + member,
+                 member + ".au", member[:-1], member + "m"]
             )
         )
     elif mode == "other":
-        host = draw(st.sampled_from(["", "evil.com", "example.org", "com", "example.com:abc", "[::1]", "127.0.0.1:80"]))
+        host = draw(st.sampled_from(["", "evil.com", "example.org", "com", "example.com:abc", "[::1]", "127.0.0.1:80", "\xe9", "*"]))
     else:
         host = None
     case = {"table": table, "host": host, "near_miss": near}
@@ -319,7 +689,24 @@ def host_case(draw):
         # request without (or with another) Host must not reach that entry through the server name
         case["server"] = member.split(":")[0]
         case["near_miss"] = case["near_miss"] or host in (None, "")
+    if draw(st.integers(0, 3)) == 0:
+        # other headers that name a host: they take no part in the dispatch
+        names = draw(st.lists(st.sampled_from(OTHER_HOST_HEADERS), min_size=1, max_size=2, unique=True))
+        case["extra"] = [_other(n, draw(st.sampled_from([member, member, "evil.com", lit]))) for n in names]
+        case["host_pos"] = draw(st.integers(0, len(names)))
+        case["near_miss"] = True
+    if draw(st.integers(0, 7)) == 0:
+        case["scope_type"] = "websocket"
     return case
+
+
+def junk_hosts(member):
+    return [member, member + ".evil.com", "x" + member, member + "x", member.upper(), member.title(), member + ":", member + ":80x", "evil.com/" + member, member + " ",
+            " " + member, member.replace(".", "x", 1), "www." + member, member + ":80:90", member + ".", member + "\t", "evil@" + member, "evil:pw@" + member,
+            member + "/", member + "/x", member + "?", member + "?x=1", member + "#", member + "\\", "http://" + member, "//" + member, "." + member, member + ":80",
+            member + ":443", member + ":0", member + ":", member[:1] + "\xe9" + member[1:], member + "\xe9", "\xe9" + member, member.replace(".", "\xad.", 1),
+            member + "\xa0", "a_b." + member, "A." + member, member + ".au", member[:-1], member + "m", member + "," + member, member + ", " + member, member + ";",
+            member + "%", member.replace(".", "%2E", 1), member.replace(".", "..", 1), "*." + member, "*"]
 
 
 def host_fixed_cases():
@@ -329,14 +716,75 @@ def host_fixed_cases():
         for host in (None, "", "evil.com", member, member.upper()):
             for server in ("testserver", member, "127.0.0.1"):
                 yield {"table": table, "host": host, "near_miss": host in (None, ""), "server": server}
+    # every kind of pattern x junk around / inside a member
+    for kind, member in (("lit", "example.com"), ("www", "www.example.com"), ("sub", "a.example.com"), ("lazy", "a.example.com"), ("cls", "a-1.example.com"),
+                         ("port", "example.com:8080"), ("alt", "x.y")):
+        table = [[kind, "example.com|x.y" if kind == "alt" else "example.com"]]
+        for host in junk_hosts(member):
+            yield {"table": table, "host": host, "near_miss": True}
+    # top-level alternations in which an earlier alternative is a prefix of a later one (and the other way round)
+    for alts in ("example.com|example.com.au", "example.com.au|example.com", "a|ab|abc", "abc|ab|a", "example.co|example.com|example.com.au"):
+        members = alts.split("|")
+        for table in ([["alt", alts]], [["lit", "other.org"], ["alt", alts]], [["alt", alts], ["sub", "au"]]):
+            for host in members + [m + "x" for m in members] + [m[:-1] for m in members] + [members[0] + members[-1]]:
+                yield {"table": table, "host": host, "near_miss": True}
+    # 8-bit Host values
+    for table in ([["sub", "example.com"]], [["lit", "example.com"], ["lazy", "example.com"]], [["lit", "example.com"]], [["cls", "example.com"], ["port", "example.com"]]):
+        for host in ("\xe9.example.com", "a.\xe9.example.com", "exam\xe9ple.com", "example.com\xe9", "\xe9example.com", "example\xad.com", "\xff", "example.com\xa0",
+                     "a.example.com", "\xe9\xe9.example.com", "example.com:8\xb2", "\xc3\xa9.example.com", "a\x80.example.com", "a.example.com\x85"):
+            yield {"table": table, "host": host, "near_miss": True}
+    # other headers naming a host, before / after / instead of the Host header
+    tables = ([["lit", "example.com"]], [["lit", "example.com"], ["lit", "internal.example"]], [["port", "internal.example"], ["sub", "example.com"]])
+    for table in tables:
+        for name in OTHER_HOST_HEADERS:
+            for other in ("example.com", "internal.example", "evil.com"):
+                for host in (None, "", "evil.com", "example.com", "internal.example"):
+                    for pos in ((0,) if host is None else (0, 1)):
+                        yield {"table": table, "host": host, "near_miss": True, "extra": [_other(name, other)], "host_pos": pos}
+    # websocket handshakes
+    for table in ([["lit", "example.com"]], [["port", "example.com"], ["lit", "other.org"]], [["sub", "example.com"], ["lit", "example.com"]]):
+        for host in (None, "", "evil.com", "example.com", "a.example.com", "example.com:80", "other.org", "EXAMPLE.COM", "example.com.evil.com"):
+            for server in ("testserver", "example.com"):
+                yield {"table": table, "host": host, "near_miss": True, "server": server, "scope_type": "websocket"}
+
+
+HOSTS_SEQ_TABLES = [
+    [["lit", "example.com"], ["www", "example.com"], ["port", "example.com"]],
+    [["port", "example.com"], ["sub", "example.com"], ["alt", "a.example.com|example.com|evil.com"]],
+    [["cls", "example.com"], ["lazy", "example.com"], ["lit", "example.com"], ["sub", "com"]],
+]
+HOSTS_SEQ_VALUES = ["example.com", "www.example.com", "example.com:80", "a.example.com", "evil.com", None]
+
+
+def hosts_seq_cases():
+    for table in HOSTS_SEQ_TABLES:
+        for n in (2, 3):
+            for combo in itertools.product(HOSTS_SEQ_VALUES, repeat=n):
+                if len(set(combo)) < 2:
+                    continue
+                yield {"table": table, "seq": list(combo)}
 
 
 def run(rec, only=None):
     quick = rec.tier == "quick"
-    core.run_sharded(rec, grid_shard, 8, min(8, core.ncpu()), ())
-    rec.exhaustive["mount_grid"] = True
+    procs = min(8, core.ncpu())
+
+    def want(sub):
+        return only is None or sub in only
+
+    for sub in ("mount_grid", "mount_special", "mount_bytes", "mount_seq", "mount_ws"):
+        if want(sub):
+            core.run_sharded(rec, enum_shard, 8 if quick else 16, procs if quick else core.ncpu(), (sub, not quick))
+            rec.exhaustive[sub] = True
     core.drive_hypothesis(rec, "mounts", mount_case(), oracle_mounts, 1500 if quick else 30000)
     core.drive_cases(rec, "hosts_fixed", host_fixed_cases(), oracle_hosts)
-    rec.exhaustive["hosts_fixed"] = True
+    if want("hosts_seq"):
+        core.run_sharded(rec, enum_shard, 8, procs, ("hosts_seq", not quick))
+        rec.exhaustive["hosts_seq"] = True
     core.drive_hypothesis(rec, "hosts", host_case(), oracle_hosts, 1500 if quick else 30000, seed_offset=1)
-    rec.exhaustive["mounts"] = rec.exhaustive["hosts"] = False
+    if want("hosts_fixed"):
+        rec.exhaustive["hosts_fixed"] = True
+    if want("mounts"):
+        rec.exhaustive["mounts"] = False
+    if want("hosts"):
+        rec.exhaustive["hosts"] = False
